@@ -47,7 +47,7 @@ var opaquePkgs = []string{
 // their SSA when no intrinsic exists.
 var interpPkgs = []string{
 	"strings", "strconv", "slices", "sort", "bytes", "unicode", "unicode/utf8",
-	"math", "math/bits", "net", "net/netip", "net/textproto", "net/url",
+	"math", "math/bits", "net/textproto", "net/url",
 	"internal/bytealg", "internal/stringslite", "internal/itoa", "errors",
 	"internal/byteorder", "cmp", "maps", "iter", "net/http", "io", "path",
 	"golang.org/x/net/http/httpguts", "bufio",
